@@ -129,6 +129,24 @@ def menagerie(ps, rnd):
         objs += [('up-resolvable-same-text', signatures.signature(fr), True)]
     except Exception:  # noqa
         pass
+    # annotation VALUES with an unusual ==: NaN (not equal to itself), an object whose __eq__ answers with a string.  What data says about
+    # two different objects is not decided here; that an object equals itself, and that the answer is a bool, is
+    class Weird(object):
+        __hash__ = object.__hash__
+
+        def __eq__(self, other):
+            return 'yes'
+    for lab, name, val in (('nan', 'NANV', float('nan')), ('weird', 'WEIRD', Weird())):
+        for fut in (False, True):
+            fx = absig.make_func([dict(p, an=({'NANV': 94, 'WEIRD': 95}[name] if p['k'] not in ('var', 'vkw') else 0)) for p in ps], name='f', future=fut,
+                                 extra_globals={name: val}, ret=name)
+            sx = signatures.signature(fx)
+            # ("solo": compared among themselves only -- with a value that claims to equal everything, what two DIFFERENT things compare to
+            # and hash to is that value's business; plain inspect.Parameter.__eq__ hands such an answer through as well, so only signatures)
+            grp = 'solo:%s%s:' % (lab, '-future' if fut else '')
+            objs += [(grp + 'up', sx, False), (grp + 'up-again', signatures.signature(fx), False)]
+            if sx.parameters and lab == 'nan':
+                objs += [(grp + 'param', list(sx.parameters.values())[0], False)]
     params = list(up.parameters.values())
     if params:
         p0 = params[0]
@@ -160,6 +178,8 @@ def events_for(tid, ps, rnd):
     dids, uids, hids = Ids(), Ids(), Ids()
     absd = [abstract(o, dids, uids, dec) for _, o, dec in objs]
     for (ia, (la, a, _)), (ib, (lb, b, _)) in itertools.product(enumerate(objs), repeat=2):
+        if (la.startswith('solo:') or lb.startswith('solo:')) and la.split(':')[:2] != lb.split(':')[:2]:
+            continue
         yield {'tid': '%s/cmp-%s-%s' % (tid, la, lb), 'op': 'cmp', 'x': absd[ia], 'y': absd[ib], 'same_object': a is b,
                'eq_xy': tri(lambda: a == b), 'eq_yx': tri(lambda: b == a), 'ne_xy': tri(lambda: a != b), 'ne_yx': tri(lambda: b != a),
                'hx': hsh(a, hids), 'hy': hsh(b, hids), 'hx_plain_ok': hsh(plain_twin(a), Ids())['ok'],
